@@ -55,13 +55,13 @@ def plans(quick):
                 ("pos3", ALL, 3, STY, [0, 10], ["pos"], ["none"], 120),
                 ("textual3", PLAIN, 3, STY, [0], ["text", "tpos", "tname"], ["none", "union"], 50)]
     return [("pos", ALL, 2, STY, [0, 6, 10], ["pos"], ["none", "union"], 0),
-            ("pos3", CORE9, 3, STY, [0, 6, 10], ["pos"], ["none"], 0),
-            ("pos3s", ALL, 3, STY, [0, 6, 10], ["pos"], ["none", "union"], 700),
-            ("pos4s", ALL, 4, STY, [0, 10], ["pos"], ["none"], 500),
-            ("textual", PLAIN, 2, STY, [0, 6, 10], ["text", "tpos", "tname"], ["none", "union"], 0),
-            ("textual3", CORE7, 3, STY, [0, 10], ["text", "tpos", "tname"], ["none"], 0),
-            ("wrapped", PLAIN, 2, ["tpc", "dis"], [0, 6, 10], ["pos", "text", "tpos", "tname"], ["subq", "cte"], 0),
-            ("wrapped3", CORE7, 3, ["tpc", "dis"], [0, 10], ["pos", "tpos"], ["subq", "cte"], 0)]
+            ("pos3", CORE9, 3, STY, [0, 10], ["pos"], ["none"], 0),
+            ("pos3s", ALL, 3, STY, [0, 6, 10], ["pos"], ["none"], 300),
+            ("pos4s", ALL, 4, STY, [0, 10], ["pos"], ["none"], 250),
+            ("textual", PLAIN, 2, STY, [0, 10], ["text", "tpos", "tname"], ["none", "union"], 0),
+            ("textual3", CORE7, 3, STY, [0], ["text", "tpos", "tname"], ["none"], 0),
+            ("wrapped", PLAIN, 2, ["tpc", "dis"], [0, 10], ["pos", "text", "tpos", "tname"], ["subq", "cte"], 0),
+            ("wrapped3", CORE7, 3, ["tpc", "dis"], [10], ["pos", "tpos"], ["subq", "cte"], 0)]
 
 
 def _tlc_job(args):
